@@ -153,7 +153,7 @@ HINT_ASSIGN = r'''proof {
                         assert(mid0.slot_ok(k));
                         if k > 0 { assert(mid0.slot_ok(k - 1)); }
                     }
-                    assert forall|k: int| 0 <= k < self.ws@.len() implies
+                    assert forall|k: int| 0 <= k < self.ws@.len() implies   // #obl:processing_time.element_added_to_exactly_the_covering_windows
                         (#[trigger] self.ws@[k]).acc.contents() == (if self.covers(k, now) { mid0.ws@[k].acc.contents().push(item) } else { mid0.ws@[k].acc.contents() }) by {
                         if k < i0 { }
                         else if k < e { if k > i0 { mid0.lemma_mono(i0 as int, k); } }
@@ -217,7 +217,7 @@ def build(x):
                             if k < n { assert(before.slot_ok(k)); }
                         }
                     }''')
-    pr.insert_before('let mut __i: usize = 0;', 'let ghost mid0 = *self;\n                proof { assert(mid0.ws@.len() > 0 && mid0.ws@.last().start >= now); }\n                ')
+    pr.insert_before('let mut __i: usize = 0;', 'let ghost mid0 = *self;\n                proof { assert(mid0.ws@.len() > 0 && mid0.ws@.last().start >= now);   /* #obl:processing_time.windows_allocated_up_to_now */ }\n                ')
     pr.add_loop_spec(2, r'''
                     invariant __i <= self.ws@.len(), *self == mid0,
                         forall|k: int| 0 <= k < __i ==> (#[trigger] self.ws@[k]).end <= now,
